@@ -545,7 +545,7 @@ def main():
 
     # entry points: scope / parse table / dispatcher / where every dispatcher argument comes from
     wiring = []
-    for entry in ("rpc_root", "rpc_db"):
+    def wire_entry(entry):
         body, sig = fn_body(mod, entry)
         # the path capture: the parameter destructured as `Path(<x>)`
         path_var = ""
@@ -611,7 +611,16 @@ def main():
                 die(f"{entry}: {dname}'s {slot} argument is not the closure's {slot} parameter ({src_of.get(slot)})")
         forwards = src_of.get("principal") == "closure:principal"
         name_src = src_of.get("db_name", "")
-        wiring.append((entry, scope, scope_src, pm.group(1), dname, forwards, name_src))
+        return (entry, scope, scope_src, pm.group(1), dname, forwards, name_src)
+
+
+    for entry in ("rpc_root", "rpc_db"):
+        try:
+            wiring.append(wire_entry(entry))
+        except SystemExit:
+            # not the shape the property relies on (e.g. the dispatcher is no longer a closure over the
+            # principal `execute_rpc` hands over): a fact that breaks `wiring_frozen`, not a refusal
+            wiring.append((entry, "unrecognised", "", "", "", False, ""))
 
     # execute_rpc (private helpers inlined): order of the four stages, the principal handed on, and the
     # cancellation policy per effect
@@ -631,12 +640,13 @@ def main():
     for k, pat in marks.items():
         ms = list(re.finditer(pat, ebody))
         if not ms:
+            if k == "authorize":
+                continue        # a fact, not a refusal: see `executeAuthorizesAtExecution`
             die(f"execute_rpc: marker {k} not found")
         pos[k] = ms[0].start()
-    am = list(re.finditer(r"let\s+(\w+)\s*=\s*" + p_state + r"\s*\.\s*authorize\s*\(", ebody))
-    if len(am) != 1:
-        die("execute_rpc: exactly one `let <p> = state.authorize(..)?` expected")
-    aend = match_close(ebody, am[0].end() - 1, "(", ")")
+    # Time of check = time of use: does the handler side authorise AGAIN, when the body has been buffered,
+    # with (scope, bearer_token(headers)), propagate a refusal with `?`, and hand exactly that principal on?
+    # (Anything else - no call, a default on error, a principal taken from request extensions - is `false`.)
     def e_through(arg):
         arg = arg.strip()
         if re.fullmatch(r"&?\s*\w+", arg):
@@ -646,18 +656,27 @@ def main():
                 return lm[0].strip()
             return nm
         return arg
-    aargs = [e_through(a) for a in split_top(ebody[am[0].end():aend])]
-    if len(aargs) != 2 or aargs[0] != p_scope or not re.search(r"\bbearer_token\b", aargs[1]) or not uses(p_headers, aargs[1]):
-        die("execute_rpc: authorize is not called with (scope, bearer_token(headers))")
-    if not re.match(r"\s*\?", ebody[aend + 1:]):
-        die("execute_rpc: the result of authorize is not propagated with `?`")
-    pvar_ = am[0].group(1)
+    am = list(re.finditer(r"let\s+(\w+)\s*=\s*" + p_state + r"\s*\.\s*authorize\s*\(", ebody))
+    exec_authorizes, pvar_ = False, None
+    if len(am) == 1:
+        aend = match_close(ebody, am[0].end() - 1, "(", ")")
+        aargs = [e_through(a) for a in split_top(ebody[am[0].end():aend])]
+        exec_authorizes = (len(aargs) == 2 and aargs[0] == p_scope and re.search(r"\bbearer_token\b", aargs[1]) is not None
+                           and uses(p_headers, aargs[1]) and re.match(r"\s*\?\s*;", ebody[aend + 1:]) is not None)
+        pvar_ = am[0].group(1)
+    # the entry points take the buffered body (`Bytes` extractor) and call execute_rpc with it: the handler
+    # side runs after the body arrived
+    handler_after_body = True
+    for entry in ("rpc_root", "rpc_db"):
+        _, hsig = fn_body(mod, entry)
+        if not any(re.search(r"(?<!\w)Bytes(?!\w)", t_) for _, t_ in params_of(hsig)):
+            handler_after_body = False
     # the principal handed to every `dispatch(...)` call must be the one `authorize` returned
-    exec_forwards = True
+    exec_forwards = exec_authorizes
     for dc in re.finditer(marks["dispatch"], ebody):
         dend_ = match_close(ebody, dc.end() - 1, "(", ")")
         dargs_ = [a.strip() for a in split_top(ebody[dc.end():dend_])]
-        if len(dargs_) != 5 or resolve_local(dargs_[4], ebody) != pvar_:
+        if len(dargs_) != 5 or pvar_ is None or resolve_local(dargs_[4], ebody) != pvar_:
             exec_forwards = False
     exec_order = [k for k, _ in sorted(pos.items(), key=lambda kv: kv[1])]
     branches = branch_texts(ebody, "execute_rpc")
@@ -854,6 +873,11 @@ def main():
     w(f"def dispatchRootTakesPrincipal : Bool := {lean_bool(root_takes_principal)}")
     w(f"def dispatchDbTakesPrincipal : Bool := {lean_bool(db_takes_principal)}")
     w("")
+    w("/-- Time of check = time of use: `execute_rpc` (helpers inlined) authorises again —")
+    w("`let p = state.authorize(scope, bearer_token(headers))?;` — and the entry points that call it take the")
+    w("buffered body (`Bytes`): the decision a request is executed under is taken after its body arrived -/")
+    w(f"def executeAuthorizesAtExecution : Bool := {lean_bool(exec_authorizes)}")
+    w(f"def handlerRunsAfterBody : Bool := {lean_bool(handler_after_body)}")
     w("/-- every `dispatch(...)` call in `execute_rpc` passes the principal returned by `state.authorize` -/")
     w(f"def executeForwardsAuthorizedPrincipal : Bool := {lean_bool(exec_forwards)}")
     w("")
